@@ -468,8 +468,12 @@ func pSearch(t *testing.T, res *report.Result, n int, backends []string, deadlin
 	w0 := newPWorld(n, "memorydb")
 	seen := map[string]bool{w0.canon(): true}
 	w0.close()
-	frontier := [][]int{nil}
-	nStates, nTrans, nPoints, maxDepth := 0, 0, 0, 0
+	type node struct {
+		h  []int
+		st [pMaxChan]int // status of each channel in the state (decides which operations are offered)
+	}
+	frontier := []node{{}}
+	nStates, nTrans, maxDepth := 0, 0, 0
 	variant := variant{Name: fmt.Sprintf("%dch-same-peers", n), N: 2, App: "noapp"}
 	report1 := func(f pFinding, be string, h []int, o pop, k, W int, call string) {
 		at := fmt.Sprintf("completed (%d write boundaries)", W)
@@ -485,16 +489,12 @@ func pSearch(t *testing.T, res *report.Result, n int, backends []string, deadlin
 			res.Cap("C10 %s: deadline reached with %d states in the frontier", variant.Name, len(frontier))
 			return false
 		}
-		h := frontier[0]
+		h, base := frontier[0].h, &pworld{n: n, st: frontier[0].st}
 		frontier = frontier[1:]
 		if nStates%nshards == shard {
 			res.Count("states", 1)
 		}
 		nStates++
-		base, err := pBuild(n, "memorydb", alpha, h)
-		if err != nil {
-			t.Fatalf("engine error: replay of a known history failed: %v", err)
-		}
 		for oi, o := range alpha {
 			if !base.offered(o) {
 				continue
@@ -503,7 +503,10 @@ func pSearch(t *testing.T, res *report.Result, n int, backends []string, deadlin
 			nTrans++
 			nh := append(append([]int{}, h...), oi)
 			// fault-free run: successor state, W, and the crash point k = W
-			w, _ := pBuild(n, "memorydb", alpha, h)
+			w, err := pBuild(n, "memorydb", alpha, h)
+			if err != nil {
+				t.Fatalf("engine error: replay of a known history failed: %v", err)
+			}
 			s := w.step(o, -1)
 			if s.err != nil {
 				if mine {
@@ -537,7 +540,6 @@ func pSearch(t *testing.T, res *report.Result, n int, backends []string, deadlin
 						} else {
 							res.Count("evaluations_"+be, 1)
 						}
-						nPoints++
 						_, call := sk.allowed(k)
 						for _, f := range wk.verdicts(o, k, sk) {
 							report1(f, be, h, o, k, s.W, call)
@@ -557,11 +559,10 @@ func pSearch(t *testing.T, res *report.Result, n int, backends []string, deadlin
 				if len(nh) == 4 && mine {
 					res.Sample(8, map[string]interface{}{"check": "C10", "variant": variant.Name, "history": pNames(alpha, nh), "channels": w.statusString(), "write_boundaries_of_last_op": s.W})
 				}
-				frontier = append(frontier, nh)
+				frontier = append(frontier, node{nh, w.st})
 			}
 			w.close()
 		}
-		base.close()
 	}
 	if int64(maxDepth) > res.Counters["max_depth"] {
 		res.Counters["max_depth"] = int64(maxDepth)
@@ -569,7 +570,7 @@ func pSearch(t *testing.T, res *report.Result, n int, backends []string, deadlin
 	if shard == 0 {
 		res.Count("variants", 1)
 	}
-	res.Note("C10 variant %s: %d channels with the peers (p0, p1), ids in key order k1 < .. < k%d; alphabet {Create, Advance, Stage, Remove} x channels; states=%d, transitions=%d, crash points of this shard=%d, depth=%d, backends=%v", variant.Name, n, n, nStates, nTrans, nPoints, maxDepth, backends)
+	res.Note("C10 variant %s: %d channels with the peers (p0, p1), ids in key order k1 < .. < k%d; alphabet {Create, Advance, Stage, Remove} x channels; states=%d, transitions=%d, depth=%d, backends=%v (crash points: counter crash_points_same_peer_channels)", variant.Name, n, n, nStates, nTrans, maxDepth, backends)
 	return true
 }
 
